@@ -103,6 +103,7 @@ mut('c19_consume_copy_before_lock', 'C19', 1, SO, "  std::lock_guard<std::mutex>
 mut('c19_get_average_without_lock', 'C19', 1, OA, "double OnlineAverage::getAverage()const\n{\n  std::lock_guard<std::mutex> lock(mutex_);", "double OnlineAverage::getAverage()const\n{")
 mut('c19_reliability_get_report_without_lock', 'C19', 1, REL, "DiagnosticReport CheckupReliability::getReport()const\n{\n  std::lock_guard<std::mutex> lock(mutex_);", "DiagnosticReport CheckupReliability::getReport()const\n{")
 mut('c19_timeout_without_lock', 'C19', 1, CK, "void Checkup<T>::timeout()\n{\n  std::lock_guard<std::mutex> lock(mutex_);", "void Checkup<T>::timeout()\n{")
+mut('c19_reset_relocks_held_mutex', 'C19', 1, OV, "void OnlineVariance::reset()\n{\n  std::lock_guard<std::mutex> lock(mutex_);\n\n  data_.clear();", "void OnlineVariance::reset()\n{\n  std::lock_guard<std::mutex> lock(mutex_);\n  OnlineAverage::reset();\n\n  data_.clear();", "self-deadlock: the base-class reset locks the mutex that is already held")
 mut('c19_function_local_static_harmless', 'C19', 0, CK, "  setDiagnostic_(DiagnosticStatus::STALE, \" timeout.\");", "  static const std::string suffix = \" timeout.\";\n  setDiagnostic_(DiagnosticStatus::STALE, suffix);", "one-time initialisation (__cxa_guard) is synchronisation, not a race")
 mut('c19_shared_mutex_harmless', 'C19', 0, SV, "  std::lock_guard<std::mutex> lock(mutex_);\n  return value_;", "  std::unique_lock<std::mutex> lock(mutex_, std::defer_lock);\n  lock.lock();\n  return value_;", "equivalent locking through unique_lock")
 mut('c19_atomic_flag_extra_harmless', 'C19', 0, OA, "bool OnlineAverage::isAvailable()const\n{\n  std::lock_guard<std::mutex> lock(mutex_);", "bool OnlineAverage::isAvailable()const\n{\n  static std::atomic<unsigned long> calls{0};\n  calls.fetch_add(1, std::memory_order_relaxed);\n  std::lock_guard<std::mutex> lock(mutex_);", "an extra relaxed atomic counter: atomics do not race")
